@@ -169,5 +169,6 @@ class AdvExec(Exec):
 
 TARGETS = [
     {"name": "c14_o1_q_non_detach_delete_safety_1_node_1_edge_each_way", "crate": "nervusdb-query", "run": run_safety(1, 1)},
+    {"name": "c14_o1_q_non_detach_delete_safety_1_node_2_edges_each_way", "crate": "nervusdb-query", "run": run_safety(1, 2)},
     {"name": "c14_o1_t_non_detach_delete_safety_2_nodes_2_edges_each_way", "crate": "nervusdb-query", "run": run_safety(2, 2)},
 ]
